@@ -36,6 +36,10 @@ pub struct Plan10 {
     /// a second, different original map for the same program (FS histories)
     #[serde(default)]
     pub orig_map2: Option<String>,
+    /// what FileReader::parent answers in every regime ("default" | "none"): with "none" a relative
+    /// reference has no folder to resolve against (plain map), inline / absolute ones stay usable
+    #[serde(default)]
+    pub parent_none: bool,
     /// FS history for external references: states of the map file between successive calls
     /// ("missing" | "O" | "O2" | "denied" | "malformed")
     #[serde(default)]
@@ -232,6 +236,16 @@ fn plan10(seed: u64, run: u64, tier: Tier) -> Plan10 {
             fatal.flips = vec![(ojson.len() - 1, 1)];
         }
     }
+    // a reader without a parent folder (file names such as "" or "/", or a reader that cannot tell)
+    let parent_none = rng.chance(1, 8);
+    if parent_none {
+        tags.push("parent:none".into());
+        if ref_kind == "external-relative" || ref_kind == "block-comment-external" {
+            // nothing to resolve the relative reference against: no usable original map
+            orig_map = None;
+            expected_open = None;
+        }
+    }
     // FS history (external usable references only)
     let mut orig_map2 = None;
     let mut fs_history = Vec::new();
@@ -250,6 +264,7 @@ fn plan10(seed: u64, run: u64, tier: Tier) -> Plan10 {
         }
     }
     Plan10 {
+        parent_none,
         orig_map2,
         fs_history,
         file,
@@ -401,6 +416,18 @@ impl Engine for C10 {
                 key.to_string()
             }
         };
+        let mut p = p;
+        if p.parent_none {
+            p.benign.parent = crate::fsim::ParentMode::ReturnNone;
+            p.fatal.parent = crate::fsim::ParentMode::ReturnNone;
+        }
+        let clean_plan = if p.parent_none {
+            let mut c = FaultPlan::clean();
+            c.parent = crate::fsim::ParentMode::ReturnNone;
+            c
+        } else {
+            FaultPlan::clean()
+        };
         let with_ref = format!("{}{}", p.program, p.ref_text);
         let omap = p.orig_map.as_ref().and_then(|j| Map::parse(j).ok());
 
@@ -425,7 +452,7 @@ impl Engine for C10 {
             let mut code_by_chain: Vec<(bool, String)> = Vec::new();
             for chain in [false, true] {
                 let cfg = cfg_for(chain, comments);
-                let clean = match run(&cfg, p.prng_seed, &with_ref, &p.file, &p.fs, &FaultPlan::clean()) {
+                let clean = match run(&cfg, p.prng_seed, &with_ref, &p.file, &p.fs, &clean_plan) {
                     Ok(o) => o,
                     Err(e) => {
                         rep.notes.push(format!("clean call failed: {}", e.chars().take(80).collect::<String>()));
@@ -475,7 +502,7 @@ impl Engine for C10 {
                         viol.push(Violation::new("K1", "K1:superseded-comment-kept", format!("[{tag}] {} sourceMappingURL comment(s) remain in the code besides the trailer", n_ref)));
                     }
                     // K2 which map
-                    let fatal_fired = out.stats.faults_fired.keys().any(|k| k != "read:short" && k != "read:Interrupted");
+                    let fatal_fired = out.stats.faults_fired.keys().any(|k| k != "read:short" && k != "read:Interrupted" && k != "parent:none");
                     if *regime == "fatal" && !fatal_fired {
                         st(&mut rep, "fatal-plan-did-not-fire", 1);
                     }
@@ -497,6 +524,9 @@ impl Engine for C10 {
                                     st(&mut rep, "composed-tokens-checked", w as u64);
                                     if wo > 0 {
                                         st(&mut rep, "probe:rewrite-token-without-original", 1);
+                                    }
+                                    if p.parent_none {
+                                        st(&mut rep, "probe:usable-map-without-parent-folder", 1);
                                     }
                                     if ns >= 2 {
                                         st(&mut rep, "probe:composition-with-2+-sources", 1);
@@ -594,7 +624,7 @@ impl Engine for C10 {
                     }
                 };
                 events += 1;
-                let out = match run(&cfg, p.prng_seed, &with_ref, &p.file, &fs, &FaultPlan::clean()) {
+                let out = match run(&cfg, p.prng_seed, &with_ref, &p.file, &fs, &clean_plan) {
                     Ok(o) => o,
                     Err(_) => break,
                 };
@@ -748,6 +778,7 @@ impl Engine for C10 {
             "probe:fatal-fault-after-half-of-body",
             "probe:eintr-during-map-read",
             "probe:fs-history-run",
+            "probe:usable-map-without-parent-folder",
         ]
     }
 }
